@@ -37,6 +37,7 @@ RULE = (
     "numpoly.loadtxt == numpy.loadtxt for path and file object. non-trivial = ndim != 1, or a single term, or >= 2 "
     "terms with >= 2 elements."
 )
+LEVEL_TEXT += (" Text round trips include exponents whose storage-key characters are Unicode white space or line separators (74, 101, 8133, 8173, 12229 ...) and files compressed by name (.gz, .bz2).")
 ASSUMPTIONS = [
     "text files restore values as float64 (loadtxt's default dtype); the coefficient dtype of a text round-trip is not asserted",
     "size-0 arrays are excluded (known finding, see C12)",
